@@ -103,6 +103,9 @@ carquet_bloom_filter_t* carquet_bloom_filter_create(size_t num_bytes) {
     if (num_bytes < BLOOM_FILTER_BLOCK_SIZE) {
         num_bytes = BLOOM_FILTER_BLOCK_SIZE;
     }
+    if (num_bytes > SIZE_MAX - (BLOOM_FILTER_BLOCK_SIZE - 1)) {
+        return NULL;  /* Rounding up would wrap around */
+    }
     num_bytes = (num_bytes + BLOOM_FILTER_BLOCK_SIZE - 1) /
                 BLOOM_FILTER_BLOCK_SIZE * BLOOM_FILTER_BLOCK_SIZE;
 
